@@ -14,6 +14,9 @@ pub struct ChainCfg {
     pub amounts: [u64; 3],
     /// answer with the hashes of the first three submitted verifications (else zero hashes)
     pub echo: bool,
+    /// the PENDING state (a payForQuotes transaction that is only in the mempool): used when the eth_call
+    /// asks for block tag "pending"; None = same as the mined state
+    pub pending_valid: Option<[bool; 3]>,
 }
 
 #[derive(Default)]
@@ -21,6 +24,8 @@ pub struct State {
     pub cfg: ChainCfg,
     /// quote hashes (hex) the node submitted, one list per eth_call
     pub calls: Vec<Vec<String>>,
+    /// block tag of each eth_call
+    pub tags: Vec<String>,
     pub other_methods: Vec<String>,
 }
 
@@ -74,6 +79,14 @@ fn handle(body: &str, state: &Arc<Mutex<State>>) -> String {
         }
     }
     st.calls.push(hashes.iter().map(hex::encode).collect());
+    // second parameter of eth_call: the block the call is evaluated against (default "latest")
+    let tag = match req["params"].get(1) {
+        Some(serde_json::Value::String(t)) => t.clone(),
+        Some(serde_json::Value::Null) | None => "latest".to_string(),
+        Some(other) => other.to_string(),
+    };
+    st.tags.push(tag.clone());
+    let valid = if tag == "pending" { st.cfg.pending_valid.unwrap_or(st.cfg.valid) } else { st.cfg.valid };
     match st.cfg.mode.as_str() {
         "rpcerr" => serde_json::json!({"jsonrpc":"2.0","id":id,
             "error":{"code":-32000,"message":"verif stub: execution reverted"}})
@@ -89,7 +102,7 @@ fn handle(body: &str, state: &Arc<Mutex<State>>) -> String {
                 };
                 out.extend_from_slice(&h);
                 out.extend_from_slice(&word_u64(st.cfg.amounts[i]));
-                out.extend_from_slice(&word_bool(st.cfg.valid[i]));
+                out.extend_from_slice(&word_bool(valid[i]));
             }
             serde_json::json!({"jsonrpc":"2.0","id":id,"result":format!("0x{}", hex::encode(out))})
                 .to_string()
@@ -154,5 +167,9 @@ impl Stub {
 
     pub fn take_calls(&self) -> Vec<Vec<String>> {
         std::mem::take(&mut self.state.lock().unwrap().calls)
+    }
+
+    pub fn take_tags(&self) -> Vec<String> {
+        std::mem::take(&mut self.state.lock().unwrap().tags)
     }
 }
